@@ -342,6 +342,7 @@ impl Scenario for C11Threads {
             cfg.components_of = true;
             cfg.recursion_bias = w.chance(1, 3);
             cfg.warnful = w.chance(1, 3);
+            cfg.import_alias = !self.xmod;
             if w.chance(1, 2) {
                 // import-heavy sets: many values governed by named types of other modules
                 cfg.value_import_bias = true;
